@@ -291,7 +291,7 @@ def arrays_in(v, depth=0, out=None):
 
 # unseeded draws: a second call legitimately differs; DRFNet(): the stand-in backend numbers its fits, so two
 # constructions differ in that bookkeeping (a property of the stub, not of the library)
-NONDETERMINISTIC = {"noise", "NormalDistribution.sample", "DRFNet()"}
+NONDETERMINISTIC = {"noise", "DRFNet()"}
 
 
 def check_call(name, f, args, kwargs=None, model=None, allow_alias_args=()):
@@ -446,9 +446,17 @@ def run_registry_misc(acc):
     mean, cov = np.array([1.0, 2.0, 3.0]), np.array([[2.0, 1, 0], [1, 2, 1], [0, 1, 2]])
     nd = sempler.NormalDistribution(mean, cov)
     for name, args in (("marginal", [np.array([2, 0])]), ("marginal", [[0, 1, 2]]), ("conditional", [np.array([0]), np.array([1, 2]), np.array([0.5, 1.0])]),
-                       ("conditional", [[0, 1, 2], [], []]), ("regress", [0, np.array([1, 2])]), ("mse", [0, np.array([1])]), ("sample", [3]), ("equal", [nd])):
+                       ("conditional", [[0, 1, 2], [], []]), ("regress", [0, np.array([1, 2])]), ("mse", [0, np.array([1])]), ("equal", [nd])):
         do("NormalDistribution." + name, getattr(nd, name), args, model=nd)
+    do("NormalDistribution.sample", nd.sample, [3], kwargs={"random_state": 5}, model=nd)
     do("NormalDistribution()", sempler.NormalDistribution, [mean, cov])
+    # univariate distributions given as 0-d / 1-d / 2-d arrays (np.atleast_* returns views of these)
+    for m1, c1 in ((np.array(3.0), np.array(2.0)), (np.array(3.0), np.array([2.0])), (np.array([3.0]), np.array([[2.0]])),
+                   (np.array([3.0]), np.array([2.0])), (np.array(3), np.array([[2]]))):
+        do("NormalDistribution()", sempler.NormalDistribution, [m1, c1])
+        d1 = sempler.NormalDistribution(m1, c1)
+        do("NormalDistribution.marginal", d1.marginal, [0], model=d1)
+        do("NormalDistribution.sample", d1.sample, [2], kwargs={"random_state": 1}, model=d1)
     W, means, variances = np.array([[0, 1.5, -1.0], [0, 0, 2.0], [0, 0, 0]]), np.array([0.5, -1.0, 2.0]), np.array([1.0, 0.5, 2.0])
     do("LGANM()", sempler.LGANM, [W, means, variances])
     lg = sempler.LGANM(W, means, variances)
